@@ -289,6 +289,10 @@ def config_document(cfg, text=False):
                 wd["starting"] = window_value(w["starting"], form, w.get("starting_ns", 0))
             if w.get("ending") is not None:
                 wd["ending"] = window_value(w["ending"], form, w.get("ending_ns", 0))
+            if c.get("explicit_null"):
+                # an open bound spelled out as null instead of being left out (tw(...)._asdict(), `ending: null`)
+                for b in ("starting", "ending"):
+                    wd.setdefault(b, None)
             d["window"] = wd
         if c.get("region"):
             d["region"] = json.loads(json.dumps(c["region"]))
